@@ -116,6 +116,7 @@ def run(ctx):
     ctx.do(rule_kind_options_separable)
     ctx.do(rule_object_level_add_is_idempotent)
     ctx.do(rule_marking_identifiers_as_given)
+    ctx.do(rule_query_defaults_agree)
     # whether a selector addresses something is decided by the walk of the object: the same walk rules as C08
     from . import C08
     ctx.do(C08.rule_truthiness, rule_id="C07.validate-first")
@@ -683,3 +684,49 @@ def rule_marking_identifiers_as_given(ctx, R="C07.query-siblings"):
                   line=fi.node.lineno, function=fi.qualname, expected="the caller's string, or <marking definition>['id']", found=sorted(used))
     if n < 3:
         raise AnalysisError("identifier helpers of markings/utils.py not found")
+
+
+def rule_query_defaults_agree(ctx, R="C07.query-siblings"):
+    """"A property is reported as marked with M exactly when M is among the markings reported for it UNDER THE SAME OPTIONS" --
+    and the options a caller does not give are the defaults: get_markings and is_marked have the same default for every
+    option they share (inherited, descendants), in every layer (the API functions of stix2.markings, the granular functions,
+    the methods of the mixin).  One flipped default makes the two queries disagree for every caller who relies on them."""
+    run = ctx.run
+    prog = ctx.prog
+    n = 0
+
+    def defaults(fi):
+        a = fi.node.args
+        pos = a.posonlyargs + a.args
+        d = dict(zip([x.arg for x in pos][len(pos) - len(a.defaults):], [norm(v) for v in a.defaults]))
+        d.update({x.arg: norm(v) for x, v in zip(a.kwonlyargs, a.kw_defaults) if v is not None})
+        return d
+    layers = [("stix2.markings::get_markings", "stix2.markings::is_marked"),
+              (GRANULAR + "::get_markings", GRANULAR + "::is_marked"),
+              ("stix2.markings::_MarkingsMixin.get_markings", "stix2.markings::_MarkingsMixin.is_marked")]
+    for a_, b_ in layers:
+        try:
+            fa, fb = prog.func(a_), prog.func(b_)
+        except Exception:
+            continue
+        da, db = defaults(fa), defaults(fb)
+        shared = sorted(k for k in set(da) & set(db) if k in ("inherited", "descendants", "marking_ref", "lang"))
+        if not shared:
+            continue
+        n += 1
+        diff = {k: (da[k], db[k]) for k in shared if da[k] != db[k]}
+        run.check(not diff, R, key(fb.module.relpath, fb.qualname, "defaults-agree-with-get_markings"),
+                  "get_markings and is_marked have different defaults for %s: with the options left out, a marking is reported by one "
+                  "query and denied by the other" % sorted(diff), file=fb.module.relpath, line=fb.node.lineno, function=fb.qualname,
+                  expected="the same defaults", found=diff)
+    # ... and the layers agree with each other (the API function passes its own value on, so its default is what counts)
+    try:
+        api, gr = defaults(prog.func("stix2.markings::is_marked")), defaults(prog.func(GRANULAR + "::is_marked"))
+        diff = {k: (api[k], gr[k]) for k in set(api) & set(gr) if k in ("inherited", "descendants") and api[k] != gr[k]}
+        run.check(not diff, R, key("stix2/markings/__init__.py", "is_marked", "defaults-agree-across-layers"),
+                  "the API function and the granular function disagree on a default", file="stix2/markings/__init__.py",
+                  line=prog.func("stix2.markings::is_marked").node.lineno, function="is_marked", expected="equal", found=diff)
+    except KeyError:
+        pass
+    if n < 2:
+        raise AnalysisError("fewer than 2 layers with both query functions found (%d)" % n)
